@@ -337,6 +337,11 @@ def check(repo: Repo, run: Run) -> None:
                         ok_val = sel is not None and all_words
         ok = ok_out and hdr is not None and ok_val
         detail = {"flag_gate": ok_out, "header_selection": hdr is not None, "frames_form": ok_val}
+    if not ok and any(x.op in ("widen", "unknown") or (x.op == "call" and x.a[0].op == "func") for x in sym.walk(cs)):
+        # the frames come out of an intermediate structure the interpreter could not reduce to a selection of the window's
+        # records (records grouped into a dictionary first, a helper it could not follow ...): not decided
+        raise AnalysisError("PERF_Event: cs_frames is computed through an intermediate structure that is not reduced to selections of "
+                            f"the window's records: {sym.pretty(cs)[:120]}")
     run.ob("R3", PM, "handle_event", "cs_frames = chained UData words truncated to the first header's count", ok,
            "" if ok else f"cs_frames is not `list(chain.from_iterable(<4 words of every nested PERF_STK_UData record>))[:<word 1 of the "
                          f"first nested PERF_STK_UHdr>]` set iff SAMPLER_USTACK is requested and a header is present ({detail})",
